@@ -248,6 +248,40 @@ func (x *execRun) cancelView() (seq, by int, before, inherited bool) {
 	return
 }
 
+// sameWorkerAfterCancel: a user function cancelled the directive's context from
+// inside its body. Whatever the goroutine it ran on starts afterwards was
+// started after the cancellation in that goroutine's own program order: no
+// schedule excuses it (a worker looks at the context before every function it
+// runs, and one job is one user function).
+func (c *checker) sameWorkerAfterCancel(x *execRun, who string, cancelSeq, cancelBy int, inherited bool) {
+	if cancelSeq == 0 || cancelBy < 0 || inherited {
+		return
+	}
+	if m := x.d.CancelMode; m != CancelInTask && m != CancelInElem && m != CancelInPred {
+		return
+	}
+	slot := -1
+	for _, e := range x.events {
+		if e.Kind == EvCancel && e.Seq == cancelSeq {
+			slot = e.Slot
+		}
+	}
+	if slot < 0 {
+		return
+	}
+	c.probe("cancel_from_inside_a_user_function:same_worker_rule_applied")
+	for _, e := range x.events {
+		if e.Seq <= cancelSeq || e.Slot != slot {
+			continue
+		}
+		switch e.Kind {
+		case EvTaskStart, EvPredStart, EvElemStart, EvEndStart:
+			c.add("C09", "started-after-cancel:same-worker", "%s: a user function cancelled the context from inside its body (#%d, g%d); the same goroutine then started %s (#%d)", who, cancelSeq, slot, e, e.Seq)
+			return
+		}
+	}
+}
+
 func (c *checker) checkFlow(x *execRun) {
 	f := x.prog.Flow
 	d := x.d
@@ -257,6 +291,7 @@ func (c *checker) checkFlow(x *execRun) {
 	task := map[int]*span{}
 	pred := map[int]*span{}
 	cancelSeq, cancelBy, cancelBefore, cancelInherited := x.cancelView()
+	c.sameWorkerAfterCancel(x, who, cancelSeq, cancelBy, cancelInherited)
 	for _, e := range x.events {
 		switch e.Kind {
 		case EvTaskStart, EvPredStart:
@@ -937,6 +972,7 @@ func (c *checker) checkPar(x *execRun) {
 	elems := map[int][]*elemCall{}
 	endHook := map[int]*span{}
 	cancelSeq, cancelBy, cancelBefore, cancelInherited := x.cancelView()
+	c.sameWorkerAfterCancel(x, who, cancelSeq, cancelBy, cancelInherited)
 	for _, e := range x.events {
 		switch e.Kind {
 		case EvTaskStart:
